@@ -101,6 +101,109 @@ def xts_expected_n(callee):
     return bits // 8
 
 
+def _call_of(F, P, val, fk, callee):
+    base = P.at(F, val, fk)
+    for _ in range(4):
+        if isinstance(base, ir.Inst) and base.op in ("zext", "sext", "trunc", "freeze"):
+            base = P.at(F, base.ops[0], fk)
+    if isinstance(base, ir.Inst) and base.op == "call" and base.callee == callee:
+        return base
+    return None
+
+
+def check_approved(chk, src, F, SELF, SAME):
+    """R13.1 / R13.3 decided path by path (facts are normalised and resolved along the path, so the gate may sit in
+    an inlined helper, behind a status variable or a switch): every effect is preceded by the fact
+    isal_self_tests() == 0; after the fact != 0 nothing happens and ISAL_CRYPTO_ERR_SELF_TEST is returned; an XTS
+    cipher call is preceded by memcmp(k1, k2, n) != 0 and the equal case returns ISAL_CRYPTO_ERR_XTS_SAME_KEYS."""
+    try:
+        paths = [P for P in ir.paths_with_facts(F, max_paths=20000) if not P.contradictory(F)]
+    except ir.PathLimit:
+        chk.broke("path limit in %s" % F.name)
+        return
+    effects_all = [I for I in F.all_insts() if is_effect(F, I)]
+    if not effects_all:
+        chk.notes.append("%s has no effects at all" % F.name)
+    ngates = len({I.id for I in F.calls(GATE)})
+    undominated = None
+    fail_eff = None
+    fail_ret = None
+    internal = [I for I in F.calls() if (I.callee or "").startswith("_XTS_AES_")]
+    xts_bad = {IC.id: None for IC in internal}
+    xts_seen = {IC.id: False for IC in internal}
+    nfail = 0
+    for P in paths:
+        passed_at = None
+        failed_at = None
+        cmp_ne_at = {}
+        cmp_eq_at = None
+        for (val, pred, c, _t, br, pos), fk in zip(P.facts, P.fact_k):
+            if c != 0 or pred not in ("eq", "ne"):
+                continue
+            G = _call_of(F, P, val, fk, GATE)
+            if G is not None:
+                if pred == "eq" and passed_at is None:
+                    passed_at = pos
+                if pred == "ne" and failed_at is None:
+                    failed_at = pos
+            Cm = _call_of(F, P, val, fk, "memcmp")
+            if Cm is not None:
+                names = set()
+                for o in Cm.ops[:2]:
+                    r, _o = F.ptr_root(o)
+                    if isinstance(r, dict) and r.get("k") == "a":
+                        names.add(F.args[r["n"]].get("name"))
+                n = F.const_int(Cm.ops[2])
+                if names == {"k1", "k2"}:
+                    if pred == "ne":
+                        cmp_ne_at.setdefault(n, pos)
+                    elif cmp_eq_at is None:
+                        cmp_eq_at = pos
+        for pos, I in enumerate(P.insts):
+            eff = is_effect(F, I)
+            anycall = I.op == "call" and not is_dbg(I) and (I.callee or "") not in PURE_CALLS
+            if eff and (passed_at is None or passed_at >= pos):
+                undominated = undominated or I
+            if failed_at is not None and pos > failed_at and (eff or anycall):
+                fail_eff = fail_eff or I
+            if cmp_eq_at is not None and pos > cmp_eq_at and (eff or anycall):
+                for IC in internal:
+                    xts_bad[IC.id] = xts_bad[IC.id] or "work is done although the two keys compared equal"
+            if I.id in xts_seen:
+                xts_seen[I.id] = True
+                n_exp = xts_expected_n(I.callee)
+                at = cmp_ne_at.get(n_exp)
+                if at is None or at >= pos:
+                    xts_bad[I.id] = xts_bad[I.id] or ("cipher call is not preceded by memcmp(k1,k2,%s) != 0" % n_exp)
+        if failed_at is not None:
+            nfail += 1
+            if P.ret != SELF:
+                fail_ret = fail_ret or (P.retinst, P.ret)
+        if cmp_eq_at is not None and P.ret != SAME:
+            for IC in internal:
+                xts_bad[IC.id] = xts_bad[IC.id] or ("the equal-keys path returns %r, not ISAL_CRYPTO_ERR_XTS_SAME_KEYS" % (P.ret if isinstance(P.ret, int) else str(P.ret),))
+    chk.obligation("R13.1-dom", undominated is None and (ngates >= 1 or not effects_all), key=F.name, sample={"function": F.name, "effects": len(effects_all), "gates": ngates, "paths": len(paths)})
+    if undominated is not None or (effects_all and ngates < 1):
+        E = undominated or effects_all[0]
+        what = E.callee if E.op == "call" else "store"
+        chk.finding(Finding("R13.1", src, F.name, "ungated:" + str(what), "%s is reachable without passing the isal_self_tests() == 0 edge (%d gate(s) in function)" % (what, ngates), loc=E.loc()))
+    ok_fail = fail_eff is None and fail_ret is None and SELF is not None and (nfail >= 1 or not effects_all)
+    chk.obligation("R13.1-fail", ok_fail, key=(F.name, "fail"), sample={"function": F.name, "failing_gate_paths": nfail})
+    if fail_eff is not None:
+        chk.finding(Finding("R13.1", src, F.name, "fail-edge-effect:" + (fail_eff.callee or fail_eff.op), "work is done after the self-test gate failed", loc=fail_eff.loc()))
+    elif fail_ret is not None:
+        chk.finding(Finding("R13.1", src, F.name, "fail-edge-return", "failed self-test gate returns %r, not ISAL_CRYPTO_ERR_SELF_TEST" % (fail_ret[1] if isinstance(fail_ret[1], int) else str(fail_ret[1]),), loc=fail_ret[0].loc()))
+    elif effects_all and nfail < 1:
+        chk.finding(Finding("R13.1", src, F.name, "no-fail-path", "no path takes the failing edge of the self-test gate", loc="%s:%s" % (F.file, F.line)))
+    for IC in internal:
+        n_exp = xts_expected_n(IC.callee)
+        bad = xts_bad[IC.id] or (None if xts_seen[IC.id] else "the cipher call lies on no feasible path")
+        chk.obligation("R13.3", bad is None, key=F.name, sample={"function": F.name, "callee": IC.callee, "n": n_exp})
+        if bad is not None:
+            chk.finding(Finding("R13.3", src, F.name, "xts-key-compare:" + IC.callee, "%s (expected: memcmp over %s bytes with the equal edge returning ISAL_CRYPTO_ERR_XTS_SAME_KEYS)" % (bad, n_exp), loc=IC.loc()))
+
+
+
 def check_self_tests_fn(chk, mods, rule="R13.4"):
     """isal_self_tests (FIPS build): ret 0 only on (status check == 0) or (winner and aes|sha == 0)."""
     M = mods.get("fips/self_tests.c")
@@ -194,58 +297,7 @@ def run(chk):
                     chk.finding(Finding("R13.2", src, F.name, "return-value", "non-approved entry point may return %r instead of ISAL_CRYPTO_ERR_FIPS_INVALID_ALGO" % (bad[:1],), loc="%s:%s" % (F.file, F.line)))
                 continue
             # approved
-            gates = find_gates(F)
-            effects = [I for I in F.all_insts() if is_effect(F, I)]
-            if not effects:
-                chk.notes.append("%s has no effects at all" % F.name)
-            undominated = []
-            for E in effects:
-                if not any(F.edge_dominates((g[2].block.id, g[3]), E) for g in gates):
-                    undominated.append(E)
-            chk.obligation("R13.1-dom", not undominated, key=F.name, sample={"function": F.name, "effects": len(effects), "gates": len(gates)})
-            if undominated:
-                E = undominated[0]
-                what = E.callee if E.op == "call" else "store"
-                chk.finding(Finding("R13.1", src, F.name, "ungated:" + str(what),
-                                    "%s is reachable without passing the isal_self_tests() == 0 edge (%d gate(s) in function)" % (what, len(gates)), loc=E.loc()))
-            for (C, U, B, zero, nonzero) in gates:
-                reach = F.reach([F.bmap[nonzero].insts[0]])
-                # only paths that do not rejoin the pass side: everything reachable from the fail block
-                eff = [I for I in F.all_insts() if I.id in reach and (is_effect(F, I) or (I.op == "call" and not is_dbg(I)))]
-                vals = ret_values_from(F, nonzero, (B.block.id,))
-                bad = [v for v, p in vals if v != SELF]
-                ok = not eff and not bad and SELF is not None
-                chk.obligation("R13.1-fail", ok, key=(F.name, C.id), sample={"function": F.name, "fail_edge_returns": [v if isinstance(v, int) else str(v) for v, p in vals][:3]})
-                if eff:
-                    chk.finding(Finding("R13.1", src, F.name, "fail-edge-effect:" + (eff[0].callee or eff[0].op), "work is done after the self-test gate failed", loc=eff[0].loc()))
-                elif bad:
-                    chk.finding(Finding("R13.1", src, F.name, "fail-edge-return", "failed self-test gate returns %r, not ISAL_CRYPTO_ERR_SELF_TEST" % (bad[0],), loc=B.loc()))
-            # XTS
-            internal = [I for I in F.calls() if (I.callee or "").startswith("_XTS_AES_")]
-            if internal:
-                for IC in internal:
-                    n_exp = xts_expected_n(IC.callee)
-                    mg = find_gates(F, "memcmp")
-                    good = None
-                    for (C, U, B, zero, nonzero) in mg:
-                        a0, a1 = F.resolve(C.ops[0]), F.resolve(C.ops[1])
-                        r0, _ = F.ptr_root(C.ops[0])
-                        r1, _ = F.ptr_root(C.ops[1])
-                        names = set()
-                        for r in (r0, r1):
-                            if isinstance(r, dict) and r.get("k") == "a":
-                                names.add(F.args[r["n"]].get("name"))
-                        n = F.const_int(C.ops[2])
-                        if names == {"k1", "k2"} and n == n_exp and F.edge_dominates((B.block.id, nonzero), IC):
-                            vals = ret_values_from(F, zero, (B.block.id,))
-                            reach = F.reach([F.bmap[zero].insts[0]])
-                            eff = [I for I in F.all_insts() if I.id in reach and is_effect(F, I)]
-                            if all(v == SAME for v, p in vals) and not eff:
-                                good = C
-                    chk.obligation("R13.3", good is not None, key=F.name, sample={"function": F.name, "callee": IC.callee, "n": n_exp})
-                    if good is None:
-                        chk.finding(Finding("R13.3", src, F.name, "xts-key-compare:" + IC.callee,
-                                            "cipher call is not dominated by memcmp(k1,k2,%s) != 0 with the equal edge returning ISAL_CRYPTO_ERR_XTS_SAME_KEYS" % n_exp, loc=IC.loc()))
+            check_approved(chk, src, F, SELF, SAME)
     check_self_tests_fn(chk, mods)
     # R13.4 continued: the status the gate reads starts as NOT_DONE (shared with C17/P0)
     import x86
